@@ -12,7 +12,7 @@ too, expected to fail; its counterexample is recorded.
 Conformance: program pairs from spec/SupprCase.tla with exactly one mutation of a struct reachable from an exported
 interface, compiled by gcc (and clang); the layouts (member offsets and sizes, old and new) are measured with a probe program
 compiled by the same compiler, not taken from libabigail; sections are drawn by TLC (spec/SupprGen.tla) in strata
-(pattern alone -- including the malformed `(`, `[`, `*a`, `a{`, verified to be rejected by regcomp --, name + ranges,
+(pattern alone -- including the malformed `(`, `a[`, `*a`, `a{`, verified to be rejected by regcomp --, name + ranges,
 patterns + kind, name + kind + access path + location, everything) and renamed onto the program (S1 = the mutated struct,
 T3 = a typedef of it, m1..m4 = its members, m9 = the inserted member).  One event per (pair, section): baseline report vs
 report with the section.  Guard (safety direction only):  hidden => Suppr!MayHide(section, c) for some changed type c of
@@ -31,7 +31,7 @@ import os, threading
 import vf, campaign
 from checks import _suppr as S
 
-MALFORMED = ["(", "[", "*a", "a{"]
+MALFORMED = ["(", "a[", "*a", "a{"]     # a pattern cannot *start* with an INI delimiter: `x = \\[` is not read as the string "[" (INI layer, C25/C39)
 STRATA = [("pattern", (2,), 1, 8, 8), ("name+ranges", (1, 9, 10), 2, 120, 9), ("patterns+kind", (2, 3, 4), 2, 60, 4),
           ("name+kind+path+loc", (1, 4, 5, 6), 2, 60, 4), ("all", tuple(range(1, 11)), 3, 120, 5)]     # name, fields, odds, generated, used per pair
 
@@ -66,10 +66,15 @@ def main():
     th.start()
 
     tool = vf.tool("hooks", "abidiff")
-    cases = S.gen_cases(c, 600 if c.thorough else 70, constraints=("StructMutsOnly",), MutCats='{"breaking"}', MinMuts=1, MaxMuts=1, MaxIfaces=4)
-    strata = {}
+    # the generators run side by side (one JVM each)
+    jobs = [("cases", lambda: S.gen_cases(c, 600 if c.thorough else 70, constraints=("StructMutsOnly",), MutCats='{"breaking"}', MinMuts=1, MaxMuts=1, MaxIfaces=4))]
     for name, fields, odds, ngen, nuse in STRATA:
-        strata[name] = S.gen_sections(c, ngen * (3 if c.thorough else 1), ["type"], fields=fields, odds=odds, name="sec-" + name.replace("+", "-"))
+        jobs.append((name, (lambda name=name, fields=fields, odds=odds, ngen=ngen:
+                            S.gen_sections(c, ngen * (3 if c.thorough else 1), ["type"], fields=fields, odds=odds, name="sec-" + name.replace("+", "-")))))
+    got = dict(vf.pmap(lambda j: (j[0], j[1]()), jobs, jobs=6))
+    cases = got.pop("cases")
+    strata = got
+    S.tick(c, "generated")
     bad = sorted(S.invalid_patterns(c, MALFORMED))
     if not bad:
         vf.infra("regcomp accepts every malformed pattern")
@@ -129,12 +134,15 @@ def main():
             c.discard(x)
         else:
             events.append(x)
+    S.tick(c, "replayed")
     th.join()
+    S.tick(c, "models-done")
     if err:
         raise err[0]
     case_of = lambda ev: dict(campaign.case_files(os.path.join(c.workdir, "p%d" % ev["case"], ev["comp"])),
                               **{"section.suppr": S.supprfile.render(ev["section"])})
     S.validate(c, events, case_of)
+    S.tick(c, "validated")
     live = [e for e in events if not e.get("_skipped")]
     c.cov["evaluations"] = len(live)
     c.cov["distinct_nontrivial"] = len({(e["case"], e["comp"], e["k"]) for e in live if e["hidden"] or e["section"]["ranges"] or e["section"]["name_regexp"]["k"] == "invalid"})
@@ -154,3 +162,4 @@ def main():
 
 
 replay = S.replay
+suppr_application_events = S.suppr_application_events      # C25 (application part): imported by checks/C25.py
